@@ -5,6 +5,7 @@ package main
 import (
 	"fmt"
 	"strings"
+	"time"
 
 	"github.com/tdakkota/docker-logql/internal/zzverif/mockq"
 	"github.com/tdakkota/docker-logql/internal/zzverif/refmodel"
@@ -124,6 +125,15 @@ func c13Check(r *vkit.Run, in c13Input) (separated bool) {
 		why := compare(res, exp, nil)
 		if why == "" {
 			ok = true
+			// the same chain as a range query of three steps: constants give the same value at every step
+			times := []int64{10 * sec, 11 * sec, 12 * sec}
+			rres := evalEngine(mockq.New(nil), text, times[0], times[2], time.Second)
+			r.Eval()
+			rexp, _, _, _ := expectGrid(conv, nil, times, cv)
+			if rwhy := compare(rres, rexp, nil); rwhy != "" {
+				r.Fail("C13/range", in, nil, map[string]any{"query": text, "result": rres.String(), "instant": res.String()}, rexp,
+					fmt.Sprintf("%s as a range query of three steps: %s (the instant query gives %s)", text, rwhy, res.String()), "")
+			}
 			break
 		}
 		lastWhy = why
